@@ -255,6 +255,35 @@ def check_solution(h, sol, frames, final, t_model):
             )
         )
     else:
+        # derived views of the same records: the time axis of the records is the running sum of the used
+        # time steps, probe voltages / phase differences are differences of the recorded columns, and the
+        # saved step closest to a frame's own time is that frame
+        try:
+            tt = np.asarray(dyn.time, dtype=float)
+            if tt.shape != want_dt.shape or not aeq(tt, np.cumsum(want_dt)):
+                V.append(Violation("dynamics-time", "Solution.dynamics.time is not the running sum of the used time steps"))
+            if rows and "mu" in rows[0] and dyn.mu is not None and np.asarray(dyn.mu).ndim == 2 and np.asarray(dyn.mu).shape[0] >= 2:
+                mu_ = np.stack([np.asarray(w["mu"], dtype=float).reshape(-1) for w in rows], axis=1)
+                th_ = np.stack([np.asarray(w["theta"], dtype=float).reshape(-1) for w in rows], axis=1)
+                j_ = mu_.shape[0] - 1
+                if not aeq(np.asarray(dyn.voltage(0, j_)), mu_[0] - mu_[j_]) or not aeq(np.asarray(dyn.voltage(j_, 0)), mu_[j_] - mu_[0]):
+                    V.append(Violation("dynamics-voltage", f"Solution.dynamics.voltage(0, {j_}) is not the difference of the recorded probe potentials"))
+                if not aeq(np.asarray(dyn.phase_difference(0, j_)), th_[0] - th_[j_]):
+                    V.append(Violation("dynamics-phase", f"Solution.dynamics.phase_difference(0, {j_}) is not the difference of the recorded probe phases"))
+            if times is not None and len(times) == len(frame_times) and hasattr(sol, "closest_solve_step"):
+                for j_, t_ in enumerate(frame_times):
+                    others = [abs(t_ - x) for i_, x in enumerate(frame_times) if i_ != j_]
+                    if others and min(others) <= 1e-9 * (1 + abs(t_)):
+                        continue  # two frames at (nearly) the same time: either answer
+                    got_j = int(sol.closest_solve_step(t_))
+                    if got_j != j_:
+                        V.append(Violation("closest-step", f"Solution.closest_solve_step({t_!r}) returns {got_j}, the frame recorded at that time is number {j_}"))
+                        break
+        except Exception as e:
+            tb_ = __import__("traceback").extract_tb(e.__traceback__)
+            if not any("/tdgl/" in f_.filename for f_ in tb_):
+                raise
+            V.append(Violation("solution-access", f"derived per-step records raised {type(e).__name__}: {str(e)[:100]}"))
         for name in ("mu", "theta", "screening_iterations"):
             arr = getattr(dyn, name)
             if rows and name in rows[0]:
